@@ -60,6 +60,59 @@ class Heavy(Process):
         return {'s': {'h': 1}}
 
 
+class Exchange(Process):
+    """declares A (default 0.0, accumulate); runs only while `enabled` (declared through the _condition mechanism)"""
+    defaults = {'timestep': 1.0}
+
+    def ports_schema(self):
+        return {'internal': {'A': {'_default': 0.0, '_emit': True}}}
+
+    def next_update(self, timestep, states):
+        return {'internal': {'A': 1.0}}
+
+
+OVERRIDE_CASES = [
+    {'_schema': {'internal': {'A': {'_default': 7.0}, 'B': {'_default': 3, '_emit': True}}}},
+    {'_schema': {'internal': {'A': {'_updater': 'set'}}}},
+    {'_condition': ('internal', 'enabled'), '_schema': {'internal': {'enabled': {'_default': True, '_emit': True}}}},
+]
+
+
+def override_case(cfg, parallel):
+    proc = Exchange(dict(copy.deepcopy(cfg), _parallel=parallel))
+    eng = Engine(processes={'ex': proc}, topology={'ex': {'internal': ('cell',)}}, display_info=False, progress_bar=False)
+    built = copy.deepcopy(eng.state.get_value()['cell'])
+    eng.update(3)
+    data = eng.emitter.get_data()
+    final = copy.deepcopy(eng.state.get_value()['cell'])
+    eng.end()
+    return built, data, final
+
+
+def check_override(cfg):
+    """a schema override (`_schema`, `_condition`) of a process marked parallel is declared exactly as for the serial process: same
+    hierarchy after construction (every declared variable with its declared default), same trajectory"""
+    fails = []
+    try:
+        with L.Watchdog(90):
+            serial = override_case(cfg, False)
+            par = override_case(cfg, True)
+    except Exception as e:
+        return ['schema override with a parallel process raised %s: %s' % (type(e).__name__, str(e)[:160])]
+    want = {'A': 0.0}
+    for k, v in cfg.get('_schema', {}).get('internal', {}).items():
+        if '_default' in v:
+            want[k] = v['_default']
+    for label, got in (('serial', serial), ('parallel', par)):
+        for k, v in want.items():
+            if got[0].get(k, KeyError) != v:
+                fails.append('%s process: after construction the declared variable %s holds %r, its declared default is %r (store %r)'
+                             % (label, k, got[0].get(k, 'nothing (missing)'), v, got[0]))
+    if serial[1] != par[1] or serial[2] != par[2]:
+        fails.append('marking the process parallel changes the run: final state serial %r, parallel %r' % (serial[2], par[2]))
+    return fails[:3]
+
+
 def children():
     return list(multiprocessing.active_children())
 
@@ -107,13 +160,39 @@ def main():
     ap = argparse.ArgumentParser()
     ap.add_argument('--tier', default='quick'); ap.add_argument('--seed', type=int, default=0)
     ap.add_argument('--out', default='out/replays'); ap.add_argument('--replay', default=None)
+    ap.add_argument('--only', default=None); ap.add_argument('--prop', default='C13')
     a = ap.parse_args()
     rng = random.Random('c13-%d' % a.seed)
     evaluations = 0; failures = []; samples = []; distinct = set()
 
     def fail(name, scn, fails):
-        rp = L.write_replay(a.out, 'C13', name, scn, fails, extra={'driver': 'bounded.c13'})
-        failures.append({'id': 'C13.bounded.%s: %s' % (name, fails[0][:260]), 'replay': rp})
+        rp = L.write_replay(a.out, a.prop, name, scn, fails, extra={'driver': 'bounded.c13'})
+        failures.append({'id': '%s.bounded.%s: %s' % (a.prop, name, fails[0][:260]), 'replay': rp})
+
+    if a.replay:
+        d = json.load(open(a.replay))['scenario']
+        if 'override' in d:
+            fails = check_override(d['override'] if not isinstance(d['override'], int) else OVERRIDE_CASES[d['override']])
+            L.emit_result({'status': 'reproduced' if fails else 'not-reproduced', 'failed': fails})
+            return
+    # (4) schema overrides of parallel processes
+    for oi, cfg in enumerate(OVERRIDE_CASES):
+        evaluations += 1
+        distinct.add('override-%d' % oi)
+        fails = check_override(cfg)
+        left = settle()
+        if left:
+            fails.append('%d worker processes alive after the override case' % len(left))
+            for c in left:
+                c.terminate()
+        if fails:
+            fail('override%d' % oi, {'override': oi}, fails)
+    if a.only == 'override':
+        L.emit_result({'status': 'violated' if failures else 'ok', 'evaluations': evaluations,
+                       'distinct_nontrivial': len(distinct), 'failures': failures[:3], 'samples': [{'override': OVERRIDE_CASES[0]['_schema']}],
+                       'rule': 'fixed family of schema overrides (_schema default / new variable / updater, _condition) on a process run '
+                               'serially and in its own OS process; distinct by case'})
+        return
 
     # (1) transparency on schedules
     n_sched = 6 if a.tier == 'quick' else 60
